@@ -1,7 +1,9 @@
-package main
+// Package lib: shared plumbing of the correspondence harness (case files, Coq printers, guarded calls into otto).
+package lib
 
 import (
 	"encoding/json"
+	"flag"
 	"fmt"
 	"math"
 	"math/rand"
@@ -34,7 +36,27 @@ type Env struct {
 	Extra   map[string]interface{}
 }
 
-func newEnv(name string, seed int64, n, shards int, out, tier string) *Env {
+// FromFlags parses the common command line (-seed -n -shards -out -tier -replay).
+func FromFlags(name string) *Env {
+	fs := flag.NewFlagSet(name, flag.ExitOnError)
+	seed := fs.Int64("seed", 1, "PRNG seed")
+	n := fs.Int("n", 1000, "number of generated cases")
+	shards := fs.Int("shards", 4, "number of cases_<i>.v files")
+	out := fs.String("out", "", "output directory")
+	tier := fs.String("tier", "quick", "quick|thorough")
+	replay := fs.String("replay", "", "replay file (property specific)")
+	_ = fs.Parse(os.Args[1:])
+	if *out == "" {
+		fmt.Fprintln(os.Stderr, "missing -out")
+		os.Exit(2)
+	}
+	Must(os.MkdirAll(*out, 0o755))
+	env := NewEnv(name, *seed, *n, *shards, *out, *tier)
+	env.Replay = *replay
+	return env
+}
+
+func NewEnv(name string, seed int64, n, shards int, out, tier string) *Env {
 	return &Env{Name: name, Seed: seed, N: n, Shards: shards, Out: out, Tier: tier,
 		Rng: rand.New(rand.NewSource(seed)), nontriv: map[string]bool{}, Dist: map[string]int{},
 		Extra: map[string]interface{}{}}
@@ -58,7 +80,7 @@ func (e *Env) Add(coq, txt, bucket string, nontrivial bool) {
 
 func (e *Env) Count() int { return len(e.coq) }
 
-func (e *Env) finish() {
+func (e *Env) Finish() {
 	if e.Import == "" {
 		return // command wrote its own outputs
 	}
@@ -89,8 +111,8 @@ func (e *Env) finish() {
 			b.WriteString("\n")
 		}
 		b.WriteString("].\nDefinition R := Eval vm_compute in (run_cases verdict cases).\nPrint R.\n")
-		must(os.WriteFile(filepath.Join(e.Out, fmt.Sprintf("cases_%d.v", s)), []byte(b.String()), 0o644))
-		must(os.WriteFile(filepath.Join(e.Out, fmt.Sprintf("cases_%d.txt", s)), []byte(strings.Join(e.txt[idx:end], "\n")+"\n"), 0o644))
+		Must(os.WriteFile(filepath.Join(e.Out, fmt.Sprintf("cases_%d.v", s)), []byte(b.String()), 0o644))
+		Must(os.WriteFile(filepath.Join(e.Out, fmt.Sprintf("cases_%d.txt", s)), []byte(strings.Join(e.txt[idx:end], "\n")+"\n"), 0o644))
 		idx = end
 		nfiles++
 	}
@@ -107,10 +129,10 @@ func (e *Env) finish() {
 		meta[k] = v
 	}
 	bs, _ := json.MarshalIndent(meta, "", " ")
-	must(os.WriteFile(filepath.Join(e.Out, "meta.json"), bs, 0o644))
+	Must(os.WriteFile(filepath.Join(e.Out, "meta.json"), bs, 0o644))
 }
 
-func must(err error) {
+func Must(err error) {
 	if err != nil {
 		panic(err)
 	}
@@ -118,33 +140,33 @@ func must(err error) {
 
 // ---- Coq printers ----
 
-func cz(v int64) string {
+func Cz(v int64) string {
 	if v < 0 {
 		return fmt.Sprintf("(%d)", v)
 	}
 	return fmt.Sprintf("%d", v)
 }
 
-func czu(v uint64) string { return fmt.Sprintf("%d", v) }
+func Czu(v uint64) string { return fmt.Sprintf("%d", v) }
 
-func cbool(b bool) string {
+func Cbool(b bool) string {
 	if b {
 		return "true"
 	}
 	return "false"
 }
 
-func clist(items []string) string { return "[" + strings.Join(items, "; ") + "]" }
+func Clist(items []string) string { return "[" + strings.Join(items, "; ") + "]" }
 
-func czlist(vs []int64) string {
+func Czlist(vs []int64) string {
 	s := make([]string, len(vs))
 	for i, v := range vs {
-		s[i] = cz(v)
+		s[i] = Cz(v)
 	}
-	return clist(s)
+	return Clist(s)
 }
 
-func copt(ok bool, s string) string {
+func Copt(ok bool, s string) string {
 	if !ok {
 		return "None"
 	}
@@ -152,30 +174,30 @@ func copt(ok bool, s string) string {
 }
 
 // UTF-16 code units of a Go string (invalid UTF-8 becomes U+FFFD as Go does).
-func units(s string) []uint16 { return utf16.Encode([]rune(s)) }
+func Units(s string) []uint16 { return utf16.Encode([]rune(s)) }
 
-func cunits(u []uint16) string {
+func Cunits(u []uint16) string {
 	s := make([]string, len(u))
 	for i, v := range u {
 		s[i] = fmt.Sprintf("%d", v)
 	}
-	return clist(s)
+	return Clist(s)
 }
 
-func cstr(s string) string { return cunits(units(s)) }
+func Cstr(s string) string { return Cunits(Units(s)) }
 
 // bit pattern of a double with all NaNs collapsed
-func dbits(f float64) uint64 {
+func Dbits(f float64) uint64 {
 	if math.IsNaN(f) {
 		return 0x7FF8000000000000
 	}
 	return math.Float64bits(f)
 }
 
-func cdouble(f float64) string { return czu(dbits(f)) }
+func Cdouble(f float64) string { return Czu(Dbits(f)) }
 
 // JS source text of a double that evaluates to exactly that double
-func jsnum(f float64) string {
+func JSNum(f float64) string {
 	switch {
 	case math.IsNaN(f):
 		return "NaN"
@@ -194,7 +216,7 @@ func jsnum(f float64) string {
 }
 
 // JS string literal from UTF-16 units, every unit escaped
-func jsstr(u []uint16) string {
+func JSStr(u []uint16) string {
 	var b strings.Builder
 	b.WriteByte('"')
 	for _, c := range u {
@@ -217,7 +239,7 @@ type Outcome struct {
 	Panic interface{} // non-nil if a Go panic escaped the API
 }
 
-func guard(f func() (otto.Value, error)) (o Outcome) {
+func Guard(f func() (otto.Value, error)) (o Outcome) {
 	defer func() {
 		if r := recover(); r != nil {
 			o.Panic = r
@@ -227,14 +249,14 @@ func guard(f func() (otto.Value, error)) (o Outcome) {
 	return
 }
 
-func runJS(vm *otto.Otto, src string) Outcome {
-	return guard(func() (otto.Value, error) { return vm.Run(src) })
+func RunJS(vm *otto.Otto, src string) Outcome {
+	return Guard(func() (otto.Value, error) { return vm.Run(src) })
 }
 
 // Error class enum shared with the Coq side:
 // 0 none, 1 Error, 2 EvalError, 3 RangeError, 4 ReferenceError, 5 SyntaxError,
 // 6 TypeError, 7 URIError, 8 other thrown value, 9 Go panic escaped
-func errClass(o Outcome) int64 {
+func ErrClass(o Outcome) int64 {
 	if o.Panic != nil {
 		return 9
 	}
@@ -253,7 +275,7 @@ func errClass(o Outcome) int64 {
 	return 8
 }
 
-func sortedKeys(m map[string]int) []string {
+func SortedKeys(m map[string]int) []string {
 	ks := make([]string, 0, len(m))
 	for k := range m {
 		ks = append(ks, k)
@@ -262,4 +284,4 @@ func sortedKeys(m map[string]int) []string {
 	return ks
 }
 
-func pick[T any](r *rand.Rand, xs []T) T { return xs[r.Intn(len(xs))] }
+func Pick[T any](r *rand.Rand, xs []T) T { return xs[r.Intn(len(xs))] }
